@@ -190,6 +190,34 @@ theorem C06_stale_inlining_witness :
     runCalls transcribeStepStale ⟨none⟩ [[1], [3/2]] = [[1], [1]] := by
   decide +kernel
 
+/-- one call of `optimize()` refreshes both `objective_value` and `solver_output`, successful or
+    not: they always belong to the same, latest solve -/
+theorem C06_readback_step {X : Type} (f : X → Rat) (st : RbState X) (x : X) (success : Bool) :
+    rbStep readbackModel f st x success = ⟨some (f x), some x⟩ := by
+  cases success <;> rfl
+
+/-- **The value read back belongs to the latest solve**: after any non-empty sequence of calls on
+    one object, with any pattern of successful and unsuccessful solves, `solver_output` is the
+    point returned by the last call and `objective_value` is the objective at that point. -/
+theorem C06_readback_current {X : Type} (f : X → Rat) :
+    ∀ (calls : List (X × Bool)) (st : RbState X) (last : X × Bool),
+      (rbRun readbackModel f st (calls ++ [last])).output = some last.1 ∧
+      (rbRun readbackModel f st (calls ++ [last])).objective = some (f last.1)
+  | [], st, last => by
+    simp [rbRun, C06_readback_step]
+  | c :: rest, st, last => by
+    simp only [List.cons_append, rbRun]
+    exact C06_readback_current f rest _ last
+
+/-- storing the objective only after a successful solve (as a table entry under a condition) does
+    not have this property: after success-then-failure the objective is the first solve's -/
+theorem C06_guarded_readback_witness :
+    (rbRun [⟨"objective_value", "results[f]", true⟩, ⟨"solver_output", "results[x]", false⟩]
+      (fun x : Rat => x * x) ⟨none, none⟩ [(2, true), (3, false)]).objective = some 4 ∧
+    (rbRun [⟨"objective_value", "results[f]", true⟩, ⟨"solver_output", "results[x]", false⟩]
+      (fun x : Rat => x * x) ⟨none, none⟩ [(2, true), (3, false)]).output = some 3 := by
+  decide +kernel
+
 /-! ## non-vacuity -/
 
 -- two members, three time stamps, one DAE row per step: f = 1/2 (1 + 10+20+30) + 1/4 (2 + 1+2+3)
